@@ -4,7 +4,10 @@
    Spec/GrammarSpec.v. *)
 From PyGql Require Import Lang.Parser Lang.Loc Spec.LexSpec Spec.GrammarSpec Spec.OutcomeSpec
   Proofs.LexProofs Proofs.LexTotal Proofs.ParserFramework Proofs.ParserTotal Proofs.ParserTop
-  Proofs.GrammarProofs Proofs.EntryProofs Proofs.LocProofs.
+  Proofs.GrammarProofs Proofs.EntryProofs Proofs.LocProofs
+  Spec.DocGrammarSpec Proofs.DocGrammarSound Proofs.DocGrammarComplete Proofs.DocEntryProofs
+  Spec.LexicalSpec Proofs.LexicalProofs Proofs.AcceptProofs
+  Spec.SdlGrammarSpec Proofs.SdlGrammarSound Proofs.SdlGrammarComplete Proofs.SdlLookahead Proofs.SdlEntryProofs.
 
 (* ---- numbers: the automaton of _read_number accepts exactly IntValue /
    FloatValue followed by an admissible character ---- *)
@@ -128,6 +131,147 @@ Theorem C01_value_production_complete : forall fl c ts v,
 Proof. intros fl. exact (proj1 (parse_value_complete_all fl)). Qed.
 Print Assumptions C01_value_production_complete.
 
+(* ---- acceptance = derivability, for executable documents ---- *)
+
+(* With type-system definitions disabled, parse accepts a text only if its
+   token list derives an executable Document (Spec/DocGrammarSpec.v: operations
+   incl. shorthand queries, variable definitions with defaults and constant
+   directives, fragments -- with variable definitions exactly when
+   experimental_fragment_variables is set --, fields, aliases, arguments,
+   directives, spreads, inline fragments), and returns that derivation's tree. *)
+Theorem C01_exec_sound : forall fl s d,
+  allow_type_system fl = false ->
+  parse_document fl s = Ok d ->
+  exists ts, lex s = Ok ts /\ D_document_exec (no_location fl) (fragment_variables fl) ts d.
+Proof. exact parse_document_exec_sound. Qed.
+Print Assumptions C01_exec_sound.
+
+(* Every executable Document derivation is accepted (whatever allow_type_system
+   says) and yields exactly its tree. *)
+Theorem C01_exec_complete : forall fl s ts d,
+  lex s = Ok ts -> D_document_exec (no_location fl) (fragment_variables fl) ts d ->
+  parse_document fl s = Ok d.
+Proof. exact parse_document_exec_complete. Qed.
+Print Assumptions C01_exec_complete.
+
+(* the same on token streams, for any fuel n above the number of tokens *)
+Theorem C01_exec_tokens_sound : forall fl n st d st',
+  allow_type_system fl = false ->
+  parse_document_p fl n st = Ok (d, st') ->
+  exists ts, toks st = map LT ts ++ toks st' /\ last_end st' = lend ts (last_end st)
+             /\ D_document_exec (no_location fl) (fragment_variables fl) ts d.
+Proof.
+  intros fl n st d st' Hts H. destruct (parse_document_p_sound fl n Hts st d st' H) as (ts & [H1 H2] & D).
+  exists ts. auto.
+Qed.
+Print Assumptions C01_exec_tokens_sound.
+
+Theorem C01_exec_tokens_complete : forall fl n ts d rest e,
+  D_document_exec (no_location fl) (fragment_variables fl) ts d -> length ts < n ->
+  parse_document_p fl n (PSt (map LT ts ++ rest) e) = Ok (d, PSt rest (lend ts e)).
+Proof. intros fl n ts d rest e. exact (parse_document_p_complete fl n ts d rest e). Qed.
+Print Assumptions C01_exec_tokens_complete.
+
+(* ---- documents with type-system definitions: accepted => derivable ---- *)
+
+(* For every flag triple, parse accepts a text only if its token list derives a
+   Document of Spec/SdlGrammarSpec.v: executable definitions as above, and --
+   only when allow_type_system is set -- schema / scalar / object / interface /
+   union / enum / input object / directive definitions with descriptions,
+   implements lists, argument and field definitions, default values, constant
+   directives, directive locations, and the seven extension forms (each with at
+   least one of its optional parts); the tree is the derivation's tree. *)
+Theorem C01_document_sound : forall fl s d,
+  parse_document fl s = Ok d ->
+  exists ts, lex s = Ok ts /\
+    D_document (no_location fl) (fragment_variables fl) (allow_type_system fl) ts d.
+Proof. exact parse_document_sound_full. Qed.
+Print Assumptions C01_document_sound.
+
+(* The June-2018 grammar is ambiguous where a definition without its optional
+   trailing { ... } block (type / interface / enum / input definitions and
+   extensions, extend schema) is followed by a shorthand query; like later
+   editions of the specification ([lookahead != {]) the library reads the braces
+   as the block.  D_document_la is D_document with exactly that disambiguation.
+   With it soundness and completeness meet: *)
+Theorem C01_document_sound_la : forall fl s d,
+  parse_document fl s = Ok d ->
+  exists ts, lex s = Ok ts /\
+    D_document_la (no_location fl) (fragment_variables fl) (allow_type_system fl) ts d.
+Proof. exact parse_document_sound_la. Qed.
+Print Assumptions C01_document_sound_la.
+
+Theorem C01_document_complete : forall fl s ts d,
+  lex s = Ok ts ->
+  D_document_la (no_location fl) (fragment_variables fl) (allow_type_system fl) ts d ->
+  parse_document fl s = Ok d.
+Proof. exact parse_document_complete_full. Qed.
+Print Assumptions C01_document_complete.
+
+(* the same on token streams, any fuel above the number of tokens *)
+Theorem C01_document_tokens_complete : forall fl n ts d rest e,
+  D_document_la (no_location fl) (fragment_variables fl) (allow_type_system fl) ts d -> length ts < n ->
+  parse_document_p fl n (PSt (map LT ts ++ rest) e) = Ok (d, PSt rest (lend ts e)).
+Proof. intros fl n ts d rest e. exact (parse_document_p_complete_full fl n ts d rest e). Qed.
+Print Assumptions C01_document_tokens_complete.
+
+(* ---- the whole lexical grammar ---- *)
+
+(* The lexer model returns a token list exactly when the text is related to it
+   by the declarative maximal-munch lexical grammar of Spec/LexicalSpec.v
+   (ignored: BOM, tab, space, LF, CR, comma, maximal comments; punctuators;
+   maximal Names; IntValue / FloatValue with the follow restriction; quoted
+   strings with their decoded value; block strings with BlockStringValue of
+   their raw body; offsets of every token) -- [lexes_slack] being the grammar
+   with the follow restriction exactly as the library implements it (a dot may
+   directly follow a FloatValue). *)
+Theorem C01_lex_sound : forall s ts, lex s = Ok ts -> lexes_slack s ts.
+Proof. intros s ts. apply lex_lexes_slack. Qed.
+Print Assumptions C01_lex_sound.
+
+Theorem C01_lex_complete_slack : forall s ts, lexes_slack s ts -> lex s = Ok ts.
+Proof. intros s ts. apply lex_lexes_slack. Qed.
+Print Assumptions C01_lex_complete_slack.
+
+(* against the documented grammar (no dot after any number) completeness is exact *)
+Theorem C01_lex_complete : forall s ts, lexes s ts -> lex s = Ok ts.
+Proof. exact lexes_lex. Qed.
+Print Assumptions C01_lex_complete.
+
+(* ---- end to end: text accepted <-> lexes to a derivable token sequence ---- *)
+Theorem C01_accepts_exec : forall fl s d, allow_type_system fl = false ->
+  (parse_document fl s = Ok d <->
+   exists ts, lexes_slack s ts /\ D_document_exec (no_location fl) (fragment_variables fl) ts d).
+Proof. exact accepts_exec. Qed.
+Print Assumptions C01_accepts_exec.
+
+(* every document, every flag triple: accepted <-> it lexes to a token sequence
+   that derives a Document *)
+Theorem C01_accepts_document : forall fl s d,
+  parse_document fl s = Ok d <->
+  exists ts, lexes_slack s ts /\
+    D_document_la (no_location fl) (fragment_variables fl) (allow_type_system fl) ts d.
+Proof. exact accepts_document. Qed.
+Print Assumptions C01_accepts_document.
+
+Theorem C01_accepts_exec_strict : forall fl s ts d,
+  lexes s ts -> D_document_exec (no_location fl) (fragment_variables fl) ts d ->
+  parse_document fl s = Ok d.
+Proof. exact accepts_exec_strict. Qed.
+Print Assumptions C01_accepts_exec_strict.
+
+Theorem C01_accepts_value : forall fl s v,
+  parse_value_str fl s = Ok v <->
+  exists ts body, lexes_slack s ts /\ whole ts body /\ D_value (no_location fl) false body v.
+Proof. exact accepts_value. Qed.
+Print Assumptions C01_accepts_value.
+
+Theorem C01_accepts_type : forall fl s t,
+  parse_type_str fl s = Ok t <->
+  exists ts body, lexes_slack s ts /\ whole ts body /\ D_type (no_location fl) body t.
+Proof. exact accepts_type. Qed.
+Print Assumptions C01_accepts_type.
+
 (* the one slack of the number look-ahead is real but harmless: "1.2..." lexes
    to Float, Ellip ... *)
 Local Open Scope string_scope.
@@ -150,4 +294,21 @@ Example C01_example_accept :
   /\ (exists t, parse_type_str fl (str_of_string "[[T!]]!") = Ok t).
 Proof.
   vm_compute. repeat split; eauto.
+Qed.
+
+(* non-vacuity of the grammar relations: the mixed executable / type-system text
+   above lexes (declarative lexical grammar) to a token sequence that derives a
+   Document (declarative syntactic grammar, with the lookahead disambiguation) *)
+Example C01_example_derivable :
+  let fl := Flags false true true in
+  exists ts d, lexes_slack (str_of_string
+    "query Q($a: [Int!]! = [1, 2e05] @d) { a: b(x: {y: ""sA""}) @e ... on T { c } ...F } fragment F($z: Int) on T { d }
+     extend schema @x type T implements A & B { ""doc"" f(a: Int = 1): [T!] } enum E { A } { shorthand }") ts
+    /\ D_document_la false true true ts d.
+Proof.
+  intros fl.
+  match goal with |- exists ts d, lexes_slack ?s ts /\ _ =>
+    assert (H : exists d, parse_document fl s = Ok d) by (vm_compute; eexists; reflexivity) end.
+  destruct H as [d H]. destruct (proj1 (accepts_document fl _ d) H) as (ts & Hl & Dd).
+  exists ts, d. split; assumption.
 Qed.
